@@ -30,7 +30,7 @@ Definition visit (below : tree -> str -> str -> Z -> option str -> list event)
   Ev (t_id T) i m o l' (Some (t_id T, i)) (is_leaf t i) ::
   match nth_error (subs_of t) (Z.to_nat i) with
   | Some (Some s) =>
-      below s (snip m) args (child_obj o (t_id T) i (if mem 35 name then first_number m else 0)) l'
+      below s (snipk name m) args (child_obj o (t_id T) i (if mem 35 name then first_number m else 0)) l'
   | _ => []
   end.
 
@@ -156,7 +156,7 @@ Definition tree_cb (f : nat) (t : tree) (args : str) : callback := fun i msg d =
   | Some (Some sub) =>
       let name := match nth_error (t_ports T) (Z.to_nat i) with Some (n, _) => n | None => [] end in
       let n := if mem 35 name then first_number msg else 0 in
-      dispatch_f f sub (snip msg) args false (set_obj d1 (child_obj (obj d1) (t_id T) i n))
+      dispatch_f f sub (snipk name msg) args false (set_obj d1 (child_obj (obj d1) (t_id T) i n))
   | _ => d1
   end.
 Definition tree_dh (t : tree) : str -> dstate -> dstate :=
@@ -173,12 +173,22 @@ Proof.
   destruct (c =? 47); [exists [c]; reflexivity | exists (c :: x); cbn; now f_equal].
 Qed.
 
-Lemma addr_chars_snip : forall m, addr_chars m -> addr_chars (snip m).
-Proof. intros m H. destruct (snip_suffix m) as [x E]. rewrite E in H. eapply addr_chars_suffix; eauto. Qed.
-
-Lemma seven_bit_snip : forall m, seven_bit m -> seven_bit (snip m).
+Lemma snipn_suffix : forall k m, exists x, m = x ++ snipn k m.
 Proof.
-  intros m H. destruct (snip_suffix m) as [x E]. unfold seven_bit in *. rewrite E in H.
+  induction k as [|k IH]; intros m; [exists []; reflexivity|]. cbn [snipn].
+  destruct (snip_suffix m) as [x E]. destruct (IH (snip m)) as [y E'].
+  exists (x ++ y). rewrite <- app_assoc, <- E', <- E. reflexivity.
+Qed.
+
+Lemma snipk_suffix : forall name m, exists x, m = x ++ snipk name m.
+Proof. intros. apply snipn_suffix. Qed.
+
+Lemma addr_chars_snip : forall name m, addr_chars m -> addr_chars (snipk name m).
+Proof. intros name m H. destruct (snipk_suffix name m) as [x E]. rewrite E in H. eapply addr_chars_suffix; eauto. Qed.
+
+Lemma seven_bit_snip : forall name m, seven_bit m -> seven_bit (snipk name m).
+Proof.
+  intros name m H. destruct (snipk_suffix name m) as [x E]. unfold seven_bit in *. rewrite E in H.
   apply Forall_app in H. tauto.
 Qed.
 
@@ -219,7 +229,7 @@ Proof.
     assert (Hd' : (depth s' <= f)%nat).
     { rewrite depth_node in Hd. pose proof (depth_sub _ _ _ Es). lia. }
     unfold leaf_event, add_log, set_obj. cbn [loc matches obj dport log].
-    edestruct (IH s' (snip m) args) as [dp E];
+    edestruct (IH s' (snipk name m) args) as [dp E];
       [eapply Hsubs; eassumption | exact Hd' | now apply addr_chars_snip | now apply seven_bit_snip
        | | apply app_nonempty; exact Hl | rewrite E]; [reflexivity|].
     cbn [loc matches obj dport log]. eexists. unfold restore. cbn [loc set_obj].
@@ -377,7 +387,7 @@ Proof.
   - assert (Hd' : (depth s' <= f)%nat).
     { rewrite depth_node in Hd. pose proof (depth_sub _ _ _ Es). lia. }
     unfold leaf_event, add_log, set_obj, set_port. cbn [loc matches obj dport log].
-    edestruct (IH s' (snip m) args) as [dp' E]; [exact Hd' | | rewrite E]; [reflexivity|].
+    edestruct (IH s' (snipk name m) args) as [dp' E]; [exact Hd' | | rewrite E]; [reflexivity|].
     cbn [loc matches obj dport log]. eexists. f_equal. cbn [rev]. rewrite <- app_assoc. reflexivity.
   - unfold leaf_event, add_log, set_obj, set_port. cbn [loc matches obj dport log]. eexists. reflexivity.
   - unfold leaf_event, add_log, set_obj, set_port. cbn [loc matches obj dport log]. eexists. reflexivity.
@@ -468,7 +478,7 @@ Proof.
   { intros hits. apply Forall_forall. intros e He. apply in_flat_map in He as ([[[i name] sub] pe] & _ & He).
     unfold visit in He. destruct He as [<-|He]; [reflexivity|].
     destruct (nth_error (subs_of t) (Z.to_nat i)) as [[s|]|]; try contradiction.
-    specialize (IH s (snip m) args (child_obj o (t_id (tab_of t)) i (if mem 35 name then first_number m else 0))
+    specialize (IH s (snipk name m) args (child_obj o (t_id (tab_of t)) i (if mem 35 name then first_number m else 0))
                    (option_map (fun l => l ++ app_of name m pe) p)).
     rewrite Forall_forall in IH. now apply IH. }
   destruct p as [l|]; [|apply G]. destruct (tables_of (tab_of t)); [|apply G].
@@ -548,7 +558,7 @@ Fixpoint chain (path : list nat) (t : tree) (m args : str) (o : Z) (p : option s
           Ev (t_id T) i m o l' (Some (t_id T, i)) (is_leaf t i) ::
           match nth_error (subs_of t) n with
           | Some (Some s) =>
-              chain rest s (snip m) args
+              chain rest s (snipk name m) args
                     (child_obj o (t_id T) i (if mem 35 name then first_number m else 0)) l'
           | _ => []
           end
@@ -563,7 +573,7 @@ Fixpoint addressed (path : list nat) (t : tree) (m args : str) : Prop :=
   | n :: rest =>
       exists name sub pe, sole_match (tab_of t) n m args name sub pe /\
         match nth_error (subs_of t) n with
-        | Some (Some s) => addressed rest s (snip m) args
+        | Some (Some s) => addressed rest s (snipk name m) args
         | _ => rest = []
         end
   end.
@@ -584,16 +594,16 @@ Proof.
   { rewrite depth_node in Hd. pose proof (depth_sub _ _ _ Es). lia. }
   destruct (pred f) as [|g] eqn:G; [pose proof (depth_pos s); lia|].
   cbn [spec_run].
-  specialize (IH (S g) s (snip m) args
+  specialize (IH (S g) s (snipk name m) args
     (child_obj o (t_id T) (Z.of_nat n) (if mem 35 name then first_number m else 0))
     (option_map (fun l => l ++ app_of name m pe) p) Hs Hrest). cbn [pred] in IH.
   destruct (option_map (fun l => l ++ app_of name m pe) p) as [l'|]; [|exact IH].
   destruct (tables_of (tab_of s)); [|exact IH].
-  destruct (scan_hits (t_ports (tab_of s)) 0 (snip m) args) eqn:Eh; [|exact IH].
+  destruct (scan_hits (t_ports (tab_of s)) 0 (snipk name m) args) eqn:Eh; [|exact IH].
   (* no hit below although the path goes on: impossible *)
   exfalso. destruct rest as [|n2 rest2]; [contradiction|].
   cbn [addressed] in Hrest. destruct Hrest as (nm2 & sb2 & pe2 & (En2 & M2 & U2) & _).
-  rewrite (scan_hits_sole _ 0 (snip m) args n2 nm2 sb2 pe2 En2 M2 U2) in Eh. discriminate.
+  rewrite (scan_hits_sole _ 0 (snipk name m) args n2 nm2 sb2 pe2 En2 M2 U2) in Eh. discriminate.
 Qed.
 
 Lemma spec_run_addressed : forall path f t m args o p,
@@ -616,7 +626,7 @@ Proof.
   cbn [addressed] in Ha. destruct Ha as (name & sub & pe & (En & M & U) & Hrest).
   cbn [chain]. rewrite En. unfold is_leaf. rewrite Nat2Z.id.
   destruct (nth_error (subs_of t) n) as [[s|]|].
-  - destruct (IH s (snip m) args
+  - destruct (IH s (snipk name m) args
                (child_obj o (t_id (tab_of t)) (Z.of_nat n) (if mem 35 name then first_number m else 0))
                (option_map (fun l => l ++ app_of name m
                    (match rtosc_match name m args with Some (_, Some pe) => pe | _ => [] end)) p) Hrest)
@@ -701,12 +711,47 @@ Proof.
   rewrite Forall_forall in Hk. destruct (Hk _ Hin) as (_ & H58 & _). congruence.
 Qed.
 
+(* a one-component name has one '/' in front of its ':' (none if it is a leaf's) *)
+Lemma count_slash_app_clean : forall a b, ~ In 47 a -> ~ In 58 a -> count_slash (a ++ b) = count_slash b.
+Proof.
+  induction a as [|c a IH]; intros b H47 H58; [reflexivity|]. cbn [app count_slash].
+  destruct (c =? 58) eqn:E1; [apply Z.eqb_eq in E1; subst; exfalso; apply H58; now left|].
+  destruct (c =? 47) eqn:E2; [apply Z.eqb_eq in E2; subst; exfalso; apply H47; now left|].
+  apply IH; intros H; [apply H47 | apply H58]; now right.
+Qed.
+
+Lemma render_segs_clean : forall l, Forall seg_ok l ->
+  Forall (fun s => match s with Alt _ => False | _ => True end) l ->
+  Forall (fun s => match s with Lit k => ~ In 47 k | _ => True end) l ->
+  ~ In 47 (render_segs l) /\ ~ In 58 (render_segs l).
+Proof.
+  induction l as [|s r IH]; intros Hs Ha Hn; [split; intros []|].
+  inversion Hs as [|? ? Hs1 Hsr]; subst. inversion Ha as [|? ? Ha1 Har]; subst. inversion Hn as [|? ? Hn1 Hnr]; subst.
+  destruct (IH Hsr Har Hnr) as [I47 I58]. rewrite render_segs_cons.
+  assert (H1 : ~ In 47 (render_seg s) /\ ~ In 58 (render_seg s)).
+  { destruct s as [k|ds|a]; [| |contradiction]; cbn [render_seg].
+    - split; [exact Hn1|]. destruct Hs1 as [_ Hk]. rewrite Forall_forall in Hk. intros Hin.
+      destruct (Hk _ Hin) as (_ & H58 & _). congruence.
+    - destruct Hs1 as (_ & Hd & _). unfold digits in Hd. rewrite Forall_forall in Hd.
+      split; intros [E|Hin]; try discriminate; specialize (Hd _ Hin); discriminate. }
+  destruct H1 as [A B]. split; intros Hin; apply in_app_or in Hin as [Hin|Hin]; auto.
+Qed.
+
+Lemma count_slash_render : forall p, wf_pat p -> no_alt p -> no_slash p ->
+  count_slash (render p) = if subtree p then 1%nat else 0%nat.
+Proof.
+  intros p Hwf Ha Hn. destruct Hwf as (Hs & _ & _ & Ht).
+  destruct (render_segs_clean (segs p) Hs Ha Hn) as [A B].
+  unfold render, render_tail. rewrite count_slash_app_clean by assumption.
+  destruct (render_types_shape (types p) Ht) as [->|[X ->]]; destruct (subtree p); reflexivity.
+Qed.
+
 (* the text appended to loc is the matched part of the message *)
 Lemma app_is_matched : forall p m pe,
   wf_pat p -> no_alt p -> path_spec p m pe ->
   m = app_of (render p) m pe ++ pe /\
   (subtree p = false -> pe = []) /\
-  (subtree p = true -> no_slash p -> snip m = pe).
+  (subtree p = true -> no_slash p -> snipk (render p) m = pe).
 Proof.
   intros p m pe Hwf Ha Sp. unfold path_spec in Sp.
   assert (HX : exists x, spells (segs p) x /\ m = (x ++ (if subtree p then [47] else [])) ++ pe /\
@@ -724,6 +769,7 @@ Proof.
       intros Hin. apply in_app_or in Hin as [Hin|Hin]; [now apply (segs_no_colon _ Hs Hl)|].
       destruct (subtree p); cbn in Hin; [destruct Hin as [Hin|[]]; discriminate | contradiction].
   - intros St Hn. rewrite St in Em. rewrite Em, <- app_assoc. cbn [app].
+    unfold snipk. rewrite (count_slash_render p Hwf Ha Hn), St. cbn [Nat.max snipn].
     apply snip_app_noslash. eapply spells_no47; eassumption.
 Qed.
 
@@ -765,7 +811,7 @@ Proof.
         pose proof (Hleaf Hkind) as Epe; subst pe; rewrite app_nil_r in Efull; exact Efull.
     - destruct (nth_error subs n) as [[s|]|] eqn:Es; try contradiction.
       destruct Hkind as [St Hns]. specialize (Hdesc St Hns).
-      assert (IHs := IH s (snip m) args
+      assert (IHs := IH s (snipk (render p) m) args
                 (child_obj o (t_id T) (0 + Z.of_nat n) (if mem 35 (render p) then first_number m else 0))
                 (l ++ app_of (render p) m pe) (l ++ m)).
       rewrite Forall_forall in IHs. apply IHs; try assumption.
